@@ -39,7 +39,7 @@ PROPS = {
         assumptions=[],
     ),
     "C04": dict(
-        units=["qc", "leader"],
+        units=["qc", "leader", "blockstore"],
         level="proof",
         level_text="Deductive proof (Verus) over the real text of View::verify, ReplicaCommit::verify, ReplicaTimeout::verify, "
                    "CommitQC::{new,add,verify}, TimeoutQC::{new,add,verify,weight}, Signers::{new,len,is_empty,weight,&,&=,|=}, "
